@@ -10,7 +10,7 @@ the store or at the return.
 """
 from plint import symx
 from plint.symx import C, norm, SymFlow, FState, term_mentions
-from plint.ir import strip_casts, line, show, calls
+from plint.ir import strip_casts, line, show, calls, cv, root_var
 from plint.units import AnalysisBroken
 from plint.wiring import check_wrapper, check_wrapper_through, handle_is_param_field, callee_of
 
@@ -59,7 +59,29 @@ def posix(prog, rep):
                "%s also reaches %s" % (fname, bad[0].get("callee")), bad[0] if bad else fn.loc[0])
         if is_try:
             rep.ob("C02.1", fn, "noloop", not fn.loops(), "no loop in %s" % fname if not fn.loops() else "%s loops" % fname, fn.loc[0])
-    rep.floor("C02.1", 14)
+    # creation: the native lock has the default reader/writer preference.  PTHREAD_RWLOCK_PREFER_WRITER_NONRECURSIVE_NP refuses a new
+    # read lock as soon as a writer queues, also when only readers hold the lock - readers are then no longer shared (a reader that
+    # waits for a second reader, or takes the read lock twice, deadlocks behind the queued writer)
+    inits = [(f, c) for f in u.roots() for (b, i, c) in f.calls() if c.get("callee") == "pthread_rwlock_init"]
+    if not inits:
+        raise AnalysisBroken("prwlock-posix.c: no pthread_rwlock_init call")
+    for (f, c) in inits:
+        a1 = strip_casts(c["args"][1])
+        bad = None
+        if not (cv(c["args"][1]) == 0 or (a1 is not None and cv(a1) == 0)):
+            av = root_var(a1)
+            for (b, i, c2) in f.calls():
+                cn = c2.get("callee") or ""
+                if cn.startswith("pthread_rwlockattr_set") and c2.get("args") and root_var(c2["args"][0]) == av:
+                    if cn == "pthread_rwlockattr_setkind_np" and cv(c2["args"][1]) in (0, 1):
+                        continue        # PREFER_READER, and PREFER_WRITER which glibc treats as reader preference
+                    if cn == "pthread_rwlockattr_setpshared":
+                        continue
+                    bad = c2
+        rep.ob("C02.1", f, "init:attributes", bad is None, "the native lock is created with the default reader/writer preference" if bad is None else
+               "line %d: the native lock is created with %s (%s): with a writer-preferring non-recursive kind a read lock is refused while a writer waits although only "
+               "readers hold the lock - two readers can no longer rely on sharing it" % (line(bad), bad.get("callee"), show(bad["args"][1]) if len(bad["args"]) > 1 else ""), bad or c)
+    rep.floor("C02.1", 15)
 
 
 # ---------------------------------------------------------------------------
@@ -496,6 +518,12 @@ def general(prog, rep):
 RENAME_LOCALS = ['src/prwlock-posix.c', 'src/prwlock-general.c']
 
 SELFTEST = [
+    dict(id="posix-writer-preferring-kind", file="src/prwlock-posix.c", expect="C02.1",
+         old="\tif (P_UNLIKELY (pthread_rwlock_init (&ret->hdl, NULL) != 0)) {",
+         new="\tpthread_rwlockattr_t attr;\n\tpthread_rwlockattr_init (&attr);\n\tpthread_rwlockattr_setkind_np (&attr, PTHREAD_RWLOCK_PREFER_WRITER_NONRECURSIVE_NP);\n\tif (P_UNLIKELY (pthread_rwlock_init (&ret->hdl, &attr) != 0)) {"),
+    dict(id="posix-default-attr-object-neutral", file="src/prwlock-posix.c", expect=None,
+         old="\tif (P_UNLIKELY (pthread_rwlock_init (&ret->hdl, NULL) != 0)) {",
+         new="\tpthread_rwlockattr_t attr;\n\tpthread_rwlockattr_init (&attr);\n\tif (P_UNLIKELY (pthread_rwlock_init (&ret->hdl, &attr) != 0)) {"),
     dict(id="posix-try-blocks", file="src/prwlock-posix.c", expect="C02.1",
          old="return (pthread_rwlock_trywrlock (&lock->hdl) == 0) ? TRUE : FALSE;", new="return (pthread_rwlock_wrlock (&lock->hdl) == 0) ? TRUE : FALSE;"),
     dict(id="posix-reader-takes-write", file="src/prwlock-posix.c", expect="C02.1",
